@@ -100,6 +100,18 @@ def c02_axis(ctx, case):
     ctx.close(fr, exp, "%s: frequencies() vs k*sampling/NFFT" % row, rtol=1e-12, sig=sig)
     ctx.check(abs(obj.df - fs / float(nfft)) <= 1e-12 * fs, "%s: df=%r, expected %r" % (row, obj.df, fs / nfft), sig=sig)
     ctx.check(obj.sides == ("onesided" if real else "twosided"), "%s: default sides %r" % (row, obj.sides), sig=sig)
+    # a refused assignment (NFFT <= 0) leaves the object as it was: same estimate, same axis
+    for bad in (-64, 0):
+        try:
+            obj.NFFT = bad
+        except Exception:      # noqa -- refused, as documented
+            pass
+        else:
+            ctx.fail("%s: NFFT = %r was accepted" % (row, bad), sig=dict(sig, clause="refused-nfft"))
+    fr_after = np.asarray(obj.frequencies(), dtype=float)
+    ctx.check(obj.NFFT == nfft and len(np.asarray(obj.psd)) == L and fr_after.shape == fr.shape and np.array_equal(fr_after, fr),
+              "%s: after a refused NFFT assignment the object reports NFFT=%r, %d PSD values and %d frequencies (before: %d, %d, %d)"
+              % (row, obj.NFFT, len(np.asarray(obj.psd)), len(fr_after), nfft, L, len(fr)), sig=dict(sig, clause="refused-nfft"))
     # the axis the object reports after its sampling frequency is changed (the first axis has been read above)
     # (a different rate, or a calibration: the same rate corrected by a few parts per million)
     fs2 = [3.0, 1.0 + 4e-6, 1.0 - 6.5e-6, 1.0 + 1e-9, 0.5, 1.0 + 2.0 ** -40][(N + nfft + len(row)) % 6] * fs
@@ -309,7 +321,18 @@ def c02_rtone(ctx, case):
     fs = case["sampling"]
     sig = {"row": row, "parity": nfft % 2, "clause": "rtone"}
     ctx.sig_on_exception = sig
-    obj = est.build(row, x, p, NFFT=nfft, sampling=fs, scale_by_freq=False)
+    if row.startswith("mtm_") and p.get("k") is not None and (N + nfft) % 2 == 0:
+        # every other multitaper case uses tapers computed once by the caller (dpss) for two records in turn: first another
+        # sinusoid, then this one -- the tapers are the caller's, an estimate must leave them as they are
+        tapers, ratios = spectrum.dpss(N, p["NW"], p["k"])
+        keep = np.array(tapers, copy=True)
+        other = np.cos(2 * np.pi * min(0.45, f0 + 0.11) * n + 0.3) * case["amp"]
+        _ = spectrum.MultiTapering(other, e=ratios, v=tapers, NFFT=nfft, method=row[4:], sampling=fs, scale_by_freq=False).psd
+        ctx.check(np.array_equal(np.asarray(tapers), keep), "the tapers handed to MultiTapering (v=) were modified by the estimate", sig=dict(sig, clause="caller-tapers"))
+        obj = spectrum.MultiTapering(x, e=ratios, v=tapers, NFFT=nfft, method=row[4:], sampling=fs, scale_by_freq=False)
+        ctx.cls("caller-supplied tapers, second use")
+    else:
+        obj = est.build(row, x, p, NFFT=nfft, sampling=fs, scale_by_freq=False)
     psd = np.real(est.psd_of(obj))
     fr = np.asarray(obj.frequencies(), dtype=float)
     ctx.cls(row, "odd" if nfft % 2 else "even")
